@@ -13,8 +13,8 @@ Alphabet == <<0, 1, 2, 3, 4, 10, 20, 22, 23, 24, 127, 255>>
 Strings == <<<<>>>> \o [a \in 1..12 |-> <<Alphabet[a]>>]
            \o [k \in 1..144 |-> <<Alphabet[((k - 1) \div 12) + 1], Alphabet[((k - 1) % 12) + 1]>>]
            \o [k \in 1..1728 |-> <<Alphabet[((k - 1) \div 144) + 1], Alphabet[(((k - 1) \div 12) % 12) + 1], Alphabet[((k - 1) % 12) + 1]>>]
-           \o (IF Thorough THEN [k \in 1..4096 |-> <<Alphabet[((k - 1) \div 512) % 8 + 2], Alphabet[((k - 1) \div 64) % 8 + 1],
-                                                    Alphabet[((k - 1) \div 8) % 8 + 5], Alphabet[(k - 1) % 8 + 1]>>] ELSE <<>>)
+           \o (IF Thorough THEN [k \in 1..4096 |-> <<Alphabet[(((k - 1) \div 512) % 8) + 2], Alphabet[(((k - 1) \div 64) % 8) + 1],
+                                                    Alphabet[(((k - 1) \div 8) % 8) + 5], Alphabet[((k - 1) % 8) + 1]>>] ELSE <<>>)
 NS == Len(Strings)
 
 Fns == <<
